@@ -103,30 +103,98 @@ def _touch():
 DECOY = {'decoy': ['rendered before the real document was assigned']}
 
 
+def stale_twin(doc):
+    """A fresh mutable object of the document's kind holding different content (state before mutation)."""
+    if isinstance(doc, dict):
+        t = {'stale': 'state before the in-place mutation'}
+        if t == doc:
+            t = {'stale2': 'x'}
+        return t
+    t = ['stale', 'state before the in-place mutation']
+    if t == doc:
+        t = ['stale2']
+    return t
+
+
+def mutate_into(obj, doc):
+    """Mutate obj IN PLACE so that it equals doc (same object identity afterwards)."""
+    if isinstance(obj, dict):
+        obj.clear()
+        obj.update(doc)
+    else:
+        obj[:] = doc
+    return obj
+
+
+# response-side histories (CUR['pre']):
+#   0 assign once                         1 assign decoy, render, assign the document (different object)
+#   2 assign, send render_body() as data  3 assign obj, render, mutate obj in place, assign the SAME obj again
+#   4 like 3, but the render + mutation + re-assignment happen in process_response middleware
+# oracle in every case: the wire body deserializes to the document as it was at the last assignment
+
 class DocW:
     def on_get(self, req, resp):
-        if CUR['pre'] == 1:
-            # a responder may assign, render and re-assign: the last assignment is the response media
-            resp.media = DECOY
-            resp.render_body()
-        resp.media = CUR['doc']
+        pre = CUR['pre']
         if CUR['ct'] is not None:
             resp.content_type = CUR['ct']
-        if CUR['pre'] == 2:
+        if pre == 1:
+            resp.media = DECOY
+            resp.render_body()
+        if pre in (3, 4):
+            obj = stale_twin(CUR['doc'])
+            resp.media = obj
+            if pre == 3:
+                resp.render_body()                      # e.g. an ETag helper
+                mutate_into(obj, CUR['doc'])
+                resp.media = obj                        # same object, new content
+            return
+        resp.media = CUR['doc']
+        if pre == 2:
             # render through the public API and send the rendered bytes (what caching middleware does)
             resp.data = resp.render_body()
 
 
 class DocA:
     async def on_get(self, req, resp):
-        if CUR['pre'] == 1:
-            resp.media = DECOY
-            await resp.render_body()
-        resp.media = CUR['doc']
+        pre = CUR['pre']
         if CUR['ct'] is not None:
             resp.content_type = CUR['ct']
-        if CUR['pre'] == 2:
+        if pre == 1:
+            resp.media = DECOY
+            await resp.render_body()
+        if pre in (3, 4):
+            obj = stale_twin(CUR['doc'])
+            resp.media = obj
+            if pre == 3:
+                await resp.render_body()
+                mutate_into(obj, CUR['doc'])
+                resp.media = obj
+            return
+        resp.media = CUR['doc']
+        if pre == 2:
             resp.data = await resp.render_body()
+
+
+class RenderThenAmendW:
+    """process_response middleware: renders (ETag-style), amends the media object in place, re-assigns it."""
+
+    def process_response(self, req, resp, resource, req_succeeded):
+        if CUR.get('pre') == 4 and isinstance(resource, DocW):
+            resp.render_body()
+            obj = resp.media
+            mutate_into(obj, CUR['doc'])
+            resp.media = obj
+            CUR['mw_ran'] = True
+
+
+class RenderThenAmendA:
+    async def process_response(self, req, resp, resource, req_succeeded):
+        if CUR.get('pre') == 4 and isinstance(resource, DocA):
+            await resp.render_body()
+            obj = resp.media
+            mutate_into(obj, CUR['doc'])
+            resp.media = obj
+            CUR['mw_ran'] = True
 
 
 class EchoW:
@@ -185,8 +253,8 @@ _APPS = {}
 def apps():
     if not _APPS:
         _instrument()
-        w = falcon.App()
-        a = falcon.asgi.App()
+        w = falcon.App(middleware=[RenderThenAmendW()])
+        a = falcon.asgi.App(middleware=[RenderThenAmendA()])
         for app in (w, a):
             app.req_options.media_handlers[VND] = JSONHandler()
             app.resp_options.media_handlers[VND] = JSONHandler()
@@ -221,6 +289,8 @@ def serialize(stack, doc, ct, pre=0):
         if res.outcome != 'done':
             problems.append('asgi outcome %s %r' % (res.outcome, res.exc))
     DIAG['protocol'] += len(res.problems)      # PEP 3333 / ASGI monitor findings belong to C05: diagnostics here
+    if pre == 4 and not CUR.get('mw_ran'):
+        problems.append('harness: process_response middleware did not run')
     body = res.body
     cl = res.header('content-length')
     if cl is not None:
@@ -749,10 +819,15 @@ def roundtrip(rec, kind, doc, ct, rng, stacks_ser='wa', stacks_de='wa', tag='rt'
     doc_hex = dump(doc).hex()
     bodies = {}
     if pre is None:
-        pre = 0 if rng is None else rng.choice([0, 0, 0, 1, 1, 2])
+        pre = 0 if rng is None else rng.choice([0, 0, 0, 1, 1, 2, 3, 3, 4, 4])
     pre = int(pre)
+    if pre in (3, 4) and not isinstance(doc, (dict, list)):
+        pre -= 2                                   # only containers can be mutated in place
     if pre:
-        rec.count('mon.reassigned_after_render' if pre == 1 else 'mon.render_body_sent')
+        rec.count({1: 'mon.reassigned_after_render', 2: 'mon.render_body_sent',
+                   3: 'mon.same_object_reassigned.responder', 4: 'mon.same_object_reassigned.middleware'}[pre])
+        if pre in (3, 4):
+            rec.count('mon.same_object.' + ('dict' if isinstance(doc, dict) else 'list'))
     for s in stacks_ser:
         st, rct, body, problems = serialize(s, doc, ct, pre)
         rec.count('mon.serialize.' + kind + '.' + s)
@@ -820,15 +895,38 @@ def phase_corpus(rec):
             idx += 1
             if idx % rec.nshards != rec.shard:
                 continue
-            roundtrip(rec, 'json', doc, ct, None, tag='corpus', pre=idx % 3)
+            roundtrip(rec, 'json', doc, ct, None, tag='corpus', pre=idx % 5)
             rec.count('phase.corpus')
     for f in corpus_forms():
         for ct in FORM_CTS:
             idx += 1
             if idx % rec.nshards != rec.shard:
                 continue
-            roundtrip(rec, 'form', f, ct, None, tag='corpus', pre=idx % 3)
+            roundtrip(rec, 'form', f, ct, None, tag='corpus', pre=idx % 5)
             rec.count('phase.corpus')
+
+
+def phase_reassign(rec):
+    """Every container document of the corpus: assign, render, mutate in place, assign the same object again
+    (in the responder and in process_response middleware), both stacks, then the full round trip."""
+    idx = 0
+    for doc in corpus_docs():
+        if not isinstance(doc, (dict, list)):
+            continue
+        for ct in (None, JSON + '; charset=utf-8', VND):
+            for pre in (3, 4):
+                idx += 1
+                if idx % rec.nshards != rec.shard:
+                    continue
+                roundtrip(rec, 'json', doc, ct, None, tag='reassign', pre=pre)
+                rec.count('phase.reassign')
+    for f in corpus_forms():
+        for pre in (3, 4):
+            idx += 1
+            if idx % rec.nshards != rec.shard:
+                continue
+            roundtrip(rec, 'form', f, FORM, None, tag='reassign', pre=pre)
+            rec.count('phase.reassign')
 
 
 def phase_hostile(rec):
@@ -936,6 +1034,7 @@ def run(rec):
     quick = rec.tier == 'quick'
     apps()
     phase_corpus(rec)
+    phase_reassign(rec)
     phase_histories(rec, 4 if quick else 5)
     phase_truncations(rec, quick)
     phase_chunkings(rec, quick)
@@ -981,6 +1080,11 @@ def run(rec):
     rec.floor('depth.6', 3)
     rec.floor('mon.reassigned_after_render', 50)
     rec.floor('mon.render_body_sent', 50)
+    rec.floor('mon.same_object_reassigned.responder', 60)
+    rec.floor('mon.same_object_reassigned.middleware', 60)
+    rec.floor('mon.same_object.dict', 40)
+    rec.floor('mon.same_object.list', 40)
+    rec.floor('phase.reassign', 100)
 
 
 # ------------------------------------------------------------------ replay
